@@ -753,7 +753,11 @@ func (ex *Exec) sprintfSymbolic(st *State, format string, va SliceVal) (StrVal, 
 	return mkStr(out), true
 }
 
+// fireOldestTimer lets time pass when nothing else can run: the pending timer with the shortest duration fires
+// (ties: the oldest), which orders e.g. a 500 ms watchdog before a 10 s request timeout as real time would.
 func (ex *Exec) fireOldestTimer(st *State) bool {
+	best := -1
+	var bestDur int64
 	for i, t := range st.timers() {
 		if !t.active {
 			continue
@@ -761,8 +765,17 @@ func (ex *Exec) fireOldestTimer(st *State) bool {
 		if t.fn == nil && len(ex.chanObj(st, t.ch).Buf) >= 1 {
 			continue // already delivered and not consumed: firing again changes nothing
 		}
-		ex.fireTimer(st, i)
-		return true
+		d := int64(1) << 62
+		if t.dur != nil && t.dur.IsConst() {
+			d = t.dur.SVal()
+		}
+		if best < 0 || d < bestDur {
+			best, bestDur = i, d
+		}
 	}
-	return false
+	if best < 0 {
+		return false
+	}
+	ex.fireTimer(st, best)
+	return true
 }
